@@ -1,7 +1,9 @@
 // dispatch of the remaining harness commands (grows with the framework)
 #include "common.h"
-int vh_dispatch_extra(const std::string& cmd, const vh::Args&)
+namespace vh { int cmd_tree_runs(const Args&); }
+int vh_dispatch_extra(const std::string& cmd, const vh::Args& a)
 {
+    if (cmd == "tree-runs") return vh::cmd_tree_runs(a);
     fprintf(stderr, "unknown command %s\n", cmd.c_str());
     return 2;
 }
